@@ -249,8 +249,9 @@ def main(run, tier):
     run.bounded_check('rt.minify.comments', '%d commented programs parsed with capture x drop_semi off/on' % len(commented), m)
     run.trust('parser determinism (same token sequence => same tree)', 'C03/C04 (this parser stands in for "any conforming ES5 parser")')
     run.assume('"any conforming ES5 parser" is not decidable here: no second parser exists in the sandbox; the token-level argument '
-               '(same tokens up to licensed normalisations) carries it, relative to the adjacency obligations not yet proved '
-               '(token fusion is bounded only)')
+               '(same tokens up to licensed normalisations) carries it, together with the adjacency obligations O-sep (every adjacency of every '
+               'production against the FIRST / LAST token classes of the grammar; open classes through a fixed set of representative spellings, '
+               'other spellings bounded)')
 
 
 def replay(data):
